@@ -312,8 +312,8 @@ def rule_g(repo, res):
 
     m = repo.mod("pseudocode.arrays")
     spec = {
-        "delete_rows_after": ("del %(a)s[%(k)s:]", ("height(%(a)s) <= %(k)s", "len(%(a)s) <= %(k)s", "%(k)s >= height(%(a)s)", "%(k)s >= len(%(a)s)")),
-        "delete_columns_after": ("for X_row in %(a)s:\n    del X_row[%(k)s:]", ("width(%(a)s) <= %(k)s", "len(%(a)s[0]) <= %(k)s", "%(k)s >= width(%(a)s)", "%(k)s >= len(%(a)s[0])")),
+        "delete_rows_after": ("del %(a)s[%(k)s:]", ("height(%(a)s) <= %(k)s", "len(%(a)s) <= %(k)s", "%(k)s >= height(%(a)s)", "%(k)s >= len(%(a)s)", "height(%(a)s) == %(k)s", "len(%(a)s) == %(k)s", "%(k)s == height(%(a)s)", "%(k)s == len(%(a)s)")),
+        "delete_columns_after": ("for X_row in %(a)s:\n    del X_row[%(k)s:]", ("width(%(a)s) <= %(k)s", "len(%(a)s[0]) <= %(k)s", "%(k)s >= width(%(a)s)", "%(k)s >= len(%(a)s[0])", "width(%(a)s) == %(k)s", "len(%(a)s[0]) == %(k)s", "%(k)s == width(%(a)s)", "%(k)s == len(%(a)s[0])")),
     }
     for fname, (core_pat, guards) in spec.items():
         fn = m.funcs.get(fname)
